@@ -34,6 +34,8 @@ class SMGen(Gen):
 
         for c in block.constraints:
             if (isinstance(c, AtMostKInARow) or isinstance(c, AtLeastKInARow) or isinstance(c, ExactlyK)
+                or isinstance(c, ExactlyKInARow) or isinstance(c, ExactlyKMultipleInARow)
+                or isinstance(c, LatinSquare) or isinstance(c, Sequential)
                 or isinstance(c, Exclude) or isinstance(c, Pin)):
                 _cexit(f"{type(c).__name__} constraints are not supported by SMGen.")
 
